@@ -327,6 +327,10 @@ import Mathlib.Tactic.FieldSimp
 import Mathlib.Tactic.Linarith
 import Mathlib.Algebra.Order.Field.Rat
 open Pew Pew.Srr Pew.Extent
+set_option linter.unusedVariables false
+set_option linter.unusedSimpArgs false
+set_option linter.unreachableTactic false
+set_option linter.unusedTactic false
 """
 
 CFG_ENV = {"self.spotsize": Val("c.spotsize", "F"), "self.speed": Val("c.speed", "F"), "self.scantime": Val("c.scantime", "F"),
@@ -429,8 +433,8 @@ def gen_srr_pixel(S):
     (∀ l : Nat, l % 2 = 0 → gen_pw_even c m = srrPixelWidth c m (some l) ∧ gen_ph_even c m = srrPixelHeight c m (some l)) ∧
     (∀ l : Nat, l % 2 = 1 → gen_pw_odd c m = srrPixelWidth c m (some l) ∧ gen_ph_odd c m = srrPixelHeight c m (some l)) := by
   refine ⟨?_, ?_, ?_, ?_⟩
-  · first | rfl | (simp [gen_pw_none, srrPixelWidth]) | (simp [gen_pw_none, srrPixelWidth]; ring)
-  · first | rfl | (simp [gen_ph_none, srrPixelHeight]) | (simp [gen_ph_none, srrPixelHeight]; ring)
+  · first | rfl | (simp [gen_pw_none, srrPixelWidth]; done) | (simp [gen_pw_none, srrPixelWidth]; ring)
+  · first | rfl | (simp [gen_ph_none, srrPixelHeight]; done) | (simp [gen_ph_none, srrPixelHeight]; ring)
   · intro l hl
     have hl' : ¬ l % 2 = 1 := by omega
     constructor
@@ -525,7 +529,7 @@ def gen_laser_get(S):
     thm = """theorem gen_laser_get_eq {α : Type} (c : Cfg) (data : Arr2 α) (e : Ext) :
     Pew.Extent.get c data e
       = data.slice (some (gen_get_idx c e).1) (some (gen_get_idx c e).2.1) (some (gen_get_idx c e).2.2.1) (some (gen_get_idx c e).2.2.2) := by
-  first | rfl | (simp only [Pew.Extent.get, getQ, toIndex, gen_get_idx])
+  first | rfl | (simp only [Pew.Extent.get, getQ, toIndex, gen_get_idx]; done)
 """
     samples = "#eval ([Cfg.raster 35 (17/10) (1/10), Cfg.spot (3/10) (7/1000)] : List Cfg).all (fun c => " \
               "([⟨0, 53 * (17/100), 0, 59 * 35⟩, ⟨3/10, 9/10, 7/1000, 21/1000⟩, ⟨1/3, 2, 5, 70⟩] : List Ext).all (fun e => " \
@@ -567,7 +571,8 @@ def one(name, fn, S):
         return "ok", ""
     # not proved: do the generated and the model function differ somewhere?
     code2, out2 = lean_run(name + "Samples", head + defs + "\n" + samples)
-    if code2 == 0 and out2.strip() == "true":
+    last = [ln for ln in out2.strip().splitlines() if ln.strip()][-1:] or [""]
+    if code2 == 0 and "error" not in out2 and last[0].strip() == "true":
         return "unsupported", "translated, but the equality with the model was not proved by the generated script " \
                               "(the two agree on every sample point)"
     return "failed", (out[-500:] + " | sample comparison: " + out2[-200:])
